@@ -72,10 +72,11 @@ class Ctx:
         self.second = tuple(second)
         self.tier = tier
         self.known_counts = {}
+        self.extra_cap = int(__import__('os').environ.get('VERIF_EXTRA_MODELS', '0'))
 
     def cap(self, qid):
         """all-SAT model cap: every listed known finding of the obligation plus a few new ones"""
-        return self.known_counts.get(qid.split('[')[0], 0) + 8
+        return self.known_counts.get(qid.split('[')[0], 0) + 8 + self.extra_cap
 
     def new_exec(self, extra_models=()):
         return Exec(self.mir, list(extra_models) + MODELS2 + BASE_MODELS)
@@ -485,7 +486,7 @@ LOWX = [z3.Function('lowx%d' % i, z3.BitVecSort(32), z3.BitVecSort(32)) for i in
 
 
 def lowercase_lemmas(x):
-    """facts about std's one-code-point lower-casing that Q04b / the oracle dump establish for EVERY x; used as axioms
+    """facts about std's one-code-point lower-casing that QLEM decides on the real dump for EVERY x; used as axioms
     (instantiated at the input code points) by the obligations that treat the mapping as an uninterpreted function"""
     y = LOW(x)
     return [z3.Implies(KEEPS(x), z3.And(valid_char(y), y != BV(0x3A3, 32), z3.Or(z3.Not(KEEPS(y)), LOW(y) == y)))] + \
@@ -571,10 +572,70 @@ def orbit_rep(ctx, x):
     return table_tree(x, [(k, BV(rep, 32)) for k, rep in ctx.oracle['orbit']], x)
 
 
+REGEX_META = [ord(ch) for ch in '\\.+*?()|[]{}^$#&-~']
+
+
+def make_regex_models(ctx, orb):
+    """the regex crate as far as grex's case-variant test needs it: regex::escape, Regex::new, Regex::is_match for a pattern of
+    the shape (?i)^<escaped literal>$ -- a literal matches case-insensitively iff the code points agree position by position up
+    to SIMPLE case folding (orb = orbit representative: the real regex-syntax table or its uninterpreted stand-in)"""
+    def m_regex_escape(ex, st, fr, callee, a, depth):
+        s_ = as_str(st, a[0])
+        cur = [(st, [])]
+        for x in s_.items:
+            nxt = []
+            for s1, acc in cur:
+                for s2, t in ex.branch(s1, z3.Or(*[x == BV(mc, 32) for mc in REGEX_META])):
+                    nxt.append((s2, acc + ([BV(92, 32), x] if t else [x])))
+            cur = nxt
+        return [(s1, SymStr(acc)) for s1, acc in cur]
+
+    def m_regex_new(ex, st, fr, callee, a, depth):
+        return EnumV('Result', 'Ok', 0, (Opaque('regex', tuple(as_str(st, a[0]).items)),))
+
+    def m_regex_is_match(ex, st, fr, callee, a, depth):
+        re_ = deref(st, a[0])
+        text = list(as_str(st, a[1]).items)
+        if not (isinstance(re_, Opaque) and re_.tag == 'regex'):
+            raise Inconclusive('is_match on %r' % (re_,))
+        pat = list(re_.p[0])
+        head = [ord(ch) for ch in '(?i)^']
+        if cps(pat[:len(head)]) != head or not pat or concrete(pat[-1]) != ord('$'):
+            raise Inconclusive('regex model covers only patterns of the shape (?i)^literal$')
+        body, lit_, i = pat[len(head):-1], [], 0
+        while i < len(body):
+            if concrete(body[i]) == 92 and i + 1 < len(body):
+                lit_.append(body[i + 1])
+                i += 2
+            else:
+                lit_.append(body[i])
+                i += 1
+        if len(lit_) != len(text):
+            return z3.BoolVal(False)
+        return z3.And(*[orb(p_) == orb(t_) for p_, t_ in zip(lit_, text)]) if lit_ else z3.BoolVal(True)
+
+    def m_result_map_or(ex, st, fr, callee, a, depth):
+        r = a[0]
+        if not (isinstance(r, EnumV) and r.enum in ('Result', 'Option')):
+            raise Inconclusive('map_or on %r' % (r,))
+        if r.variant in ('Err', 'None'):
+            return a[1]
+        return ex.call_value(st, a[2], [r.fields[0]], depth)
+
+    def m_str_is_ascii(ex, st, fr, callee, a, depth):
+        s_ = as_str(st, a[0])
+        return z3.And(*[z3.ULT(x, BV(0x80, 32)) for x in s_.items]) if s_.items else z3.BoolVal(True)
+    return [(P(r'^(regex::)?escape$'), m_regex_escape), (P(r'^Regex::new$|^regex::Regex::new$'), m_regex_new),
+            (P(r'^Regex::is_match$|^regex::Regex::is_match$'), m_regex_is_match),
+            (P(r'^Result::<.*>::map_or::<|^Option::<.*>::map_or::<'), m_result_map_or),
+            (P(r'^core::str::<impl str>::is_ascii$'), m_str_is_ascii)]
+
+
 def exec_lower(ctx, cs, st=None, ex=None):
     """RegExp::convert_for_case_insensitive_matching(&mut vec![<one test case with code points cs>]);
     -> (exec, [(outcome, code points of the test case afterwards)])"""
-    ex = ex or ctx.new_exec([(P(r'impl str>::to_lowercase$'), make_to_lowercase_model(ctx))])
+    ex = ex or ctx.new_exec([(P(r'impl str>::to_lowercase$'), make_to_lowercase_model(ctx))] +
+                            make_regex_models(ctx, lambda x: orbit_rep(ctx, x)))
     fn = ctx.mir.one_fn(r'^regexp::<impl at [^>]*>::convert_for_case_insensitive_matching$')
     st = st or State(pc=[valid_char(c) for c in cs])
     v = st.ref(ListV([SymStr(cs)]))
@@ -1413,7 +1474,7 @@ def q10p(ctx, lens=(1, 1)):
     allv = [v for c in cases for v in c]
     assume = [z3.And(valid_char(v), v != BV(0x3A3, 32)) for v in allv]
     ex = ctx.new_exec([(P(r'impl str>::to_lowercase$'), m_to_lowercase_abstract),
-                       (P(r"^RegExp::<'_>::grapheme_clusters$"), m_stop)])
+                       (P(r"^RegExp::<'_>::grapheme_clusters$"), m_stop)] + make_regex_models(ctx, ORB))
     for v in allv:
         assume += lowercase_lemmas(v)
     ob.extra['lemmas_used'] = ('one-code-point lower-casing is idempotent where it keeps one code point (Q04b, decided on the real table); '
@@ -1566,8 +1627,7 @@ def q04n(ctx, n=2, exclude=()):
     # lemma decided by Q04 on the real tables: outside the reported code points, a kept-length lower-casing stays in the orbit
     for c in cs:
         assume += lowercase_lemmas(c)
-        assume.append(z3.Implies(KEEPS(c), ORB(LOW(c)) == ORB(c)))
-    ex = ctx.new_exec([(P(r'impl str>::to_lowercase$'), m_to_lowercase_abstract)])
+    ex = ctx.new_exec([(P(r'impl str>::to_lowercase$'), m_to_lowercase_abstract)] + make_regex_models(ctx, ORB))
     ex.uses_uf = True
     st = State(pc=list(assume))
     t0 = time.time()
@@ -1587,8 +1647,7 @@ def q04n(ctx, n=2, exclude=()):
             bads.append(z3.And(*o.st.pc, z3.Not(z3.And(*[ORB(a) == ORB(b) for a, b in zip(r, cs)]))))
     ob.classes_expected = ['kept', 'lowered']
     ctx.check_classes(ob)
-    ob.extra['lemmas_used'] = ('Q04 (this run, real tables): for every code point outside its reported set, a lower-casing that keeps one code '
-                               'point stays in the folding orbit; to_lowercase of a string without U+03A3 is the per-code-point mapping')
+    ob.extra['lemmas_used'] = 'QLEM (table facts decided on the real dump in this run); to_lowercase of a string without U+03A3 is the per-code-point mapping'
     bad = z3.Or(*bads)
     ob.verdict = decide(ob.qid, assume + ob.defs, bad, cs, logic='QF_UFBV', second=ctx.second, workdir=ctx.workdir,
                         second_timeout_s=getattr(ctx, 'second_timeout', 60))
@@ -1619,9 +1678,8 @@ def q04p(ctx, lens=(1, 1), exclude=()):
     assume = list(base)
     for v in allv:
         assume += lowercase_lemmas(v)
-        assume.append(z3.Implies(KEEPS(v), ORB(LOW(v)) == ORB(v)))
     ex = ctx.new_exec([(P(r'impl str>::to_lowercase$'), m_to_lowercase_abstract), (P(r'impl str>::to_uppercase$'), m_to_uppercase_abstract),
-                       (P(r"^RegExp::<'_>::grapheme_clusters$"), m_stop)])
+                       (P(r"^RegExp::<'_>::grapheme_clusters$"), m_stop)] + make_regex_models(ctx, ORB))
     ex.uses_uf = True
     ci = z3.Bool('cfg_is_case_insensitive_matching')
     st0 = State(pc=list(assume))
@@ -1645,8 +1703,7 @@ def q04p(ctx, lens=(1, 1), exclude=()):
         bads.append(z3.And(*s1.pc, z3.Not(z3.And(every_in, every_out))))
     ctx.finish(ob, ex, t0)
     ob.paths = npaths
-    ob.extra['lemmas_used'] = ('Q04 (this run, real tables): outside its reported code points a kept-length lower-casing stays in the folding orbit; '
-                               'Q04b: idempotence; per-code-point case mapping for strings without U+03A3')
+    ob.extra['lemmas_used'] = 'QLEM (table facts decided on the real dump in this run); per-code-point case mapping for strings without U+03A3'
     bad = z3.Or(*bads)
     ob.verdict = decide(ob.qid, assume + ob.defs, bad, allv + [ci], logic='QF_UFBV', second=ctx.second, workdir=ctx.workdir,
                         second_timeout_s=getattr(ctx, 'second_timeout', 60))
@@ -1749,4 +1806,347 @@ def q05r(ctx, n=4, clause='notation', letters=False):
     ctx.check_classes(ob)
     ob.verdict = decide(ob.qid, assume + ob.defs, z3.Or(*bads), cs + [minrep, minlen], all_sat=True, max_models=ctx.cap(name),
                         second=ctx.second, workdir=ctx.workdir, second_timeout_s=getattr(ctx, 'second_timeout', 60), block_vars=cs)
+    return ob
+
+
+# =========================================================================== Q16t  trie construction (Dfa::from without minimisation)
+def trie_language(st, dfa, max_words=4000):
+    """all words of the trie as lists of code-point terms: every path from the initial state to a final state, every edge
+    (value, min, max) contributing value^k for each k in min..=max (edge counts are concrete after insertion)"""
+    graph = dfa.get('graph')
+    finals = set(concrete(x) for x in dfa.get('final_state_indices').get('items').items)
+    init = dfa.get('initial_state').p[0]
+    edges = {}
+    for e in graph.get('edges').items:
+        s_, t_, w = concrete(e.fields[0]), concrete(e.fields[1]), e.fields[2]
+        chars, _reps, mn, mx = grapheme_fields(st, w)
+        unit = [x for u_ in chars.items for x in as_str(st, u_).items]
+        lo, hi = concrete(mn), concrete(mx)
+        if lo is None or hi is None:
+            raise Inconclusive('edge with a symbolic repeat count')
+        edges.setdefault(s_, []).append((t_, unit, lo, hi))
+    words = []
+
+    def walk(node, prefix, seen):
+        if node in finals:
+            words.append(prefix)
+            if len(words) > max_words:
+                raise Inconclusive('trie language larger than %d words' % max_words)
+        for t_, unit, lo, hi in edges.get(node, []):
+            if t_ in seen:
+                raise Inconclusive('cycle in the trie')
+            for k in range(lo, hi + 1):
+                walk(t_, prefix + unit * k, seen | {t_})
+    walk(init, [], {init})
+    return words, len(graph.get('nodes').items), sum(len(v) for v in edges.values())
+
+
+def words_eq(a, b):
+    if len(a) != len(b):
+        return z3.BoolVal(False)
+    return z3.And(*[x == y for x, y in zip(a, b)]) if a else z3.BoolVal(True)
+
+
+def first_widening(clusters, with_position=False):
+    """label of a trie counterexample: the first edge-widening event of Dfa::find_next_state when the clusters are inserted
+    in order (a Python mirror of the insertion used ONLY to name the finding, not to decide anything).
+    -> e.g. '^a{2}+a{3}' (edge a{2} directly under the root widened by a{3}), '^a.b{1}+b{2}' ... or None"""
+    trie = {'edges': []}        # edges: [value, min, max, child] newest first on lookup
+    for ci, cl in enumerate(clusters):
+        node, path = trie, []
+        for c, k in cl:
+            nxt = None
+            for e in reversed(node['edges']):
+                if e[0] != c:
+                    continue
+                if e[2] == k - 1:
+                    names = {}
+                    def nm(x):
+                        if x not in names:
+                            names[x] = chr(ord('a') + len(names))
+                        return names[x]
+                    pre = '.'.join('%s{%d}' % (nm(pc), pk) if pk > 1 else nm(pc) for pc, pk in path)
+                    lab = '^%s%s{%s}+%s{%d}' % (pre + '.' if pre else '', nm(c), e[1] if e[1] == e[2] else '%d,%d' % (e[1], e[2]), nm(c), k)
+                    if with_position:
+                        return lab, (ci, len(path))
+                    return lab
+                if e[2] == k:
+                    nxt = e[3]
+                    break
+            if nxt is None:
+                nxt = {'edges': []}
+                node['edges'].append([c, k, k, nxt])
+            path.append((c, k))
+            node = nxt
+    return (None, None) if with_position else None
+
+
+
+def sorted_before(a, b):
+    """a strictly before b in (length, lexicographic) order -- distinct test cases as RegExp::sort leaves them"""
+    if len(a) != len(b):
+        return z3.BoolVal(len(a) < len(b))
+    res = z3.BoolVal(False)
+    for x, y in reversed(list(zip(a, b))):
+        res = z3.Or(z3.ULT(x, y), z3.And(x == y, res))
+    return res
+
+
+@guarded
+def q16t(ctx, shape=(2, 2), max_count=3, letters=False):
+    """Q16t: the trie built by Dfa::from (no minimisation) accepts exactly the union of the inserted clusters"""
+    ob = Obligation('Q16t[%s]%s' % (','.join(map(str, shape)), '[letters]' if letters else ''), q16t.__doc__)
+    ob.domain = ('%d clusters of %s graphemes (one code point each, %s; neighbouring graphemes of a cluster differ), each with an exact '
+                 'repeat count in 1..=%d (the form convert_repetitions produces: Q05r)' % (len(shape), '/'.join(map(str, shape)),
+                                                                                         'a..z, clusters in the order RegExp::sort establishes' if letters else 'every scalar value, any insertion order', max_count))
+    ob.bound = 'exactly this shape; counts <= %d' % max_count
+    fields = ctx.mir.structs.get('Dfa')
+    if fields != ['alphabet', 'graph', 'initial_state', 'final_state_indices', 'config']:
+        raise Inconclusive('Dfa layout changed: %s' % (fields,))
+    import itertools
+    ex = ctx.new_exec()
+    cvars = [[z3.BitVec('v%d_%d' % (i, j), 32) for j in range(n)] for i, n in enumerate(shape)]
+    kvars = [[z3.BitVec('k%d_%d' % (i, j), 32) for j in range(n)] for i, n in enumerate(shape)]
+    assume = []
+    for i, n in enumerate(shape):
+        for j in range(n):
+            c = cvars[i][j]
+            assume.append(valid_char(c))
+            if letters:
+                assume += [z3.UGE(c, BV(0x61, 32)), z3.ULE(c, BV(0x7A, 32))]
+            if j:
+                assume.append(c != cvars[i][j - 1])
+    flatk = [k for ks in kvars for k in ks]
+    assume += [z3.And(z3.UGE(k, BV(1, 32)), z3.ULE(k, BV(max_count, 32))) for k in flatk]
+    fn = ctx.mir.one_fn(r'^dfa::<impl at [^>]*>::from$')
+    t0 = time.time()
+    bads = []
+    npaths = 0
+    # repeat counts steer the control flow of find_next_state: one symbolic run per concrete assignment of the counts
+    for counts in itertools.product(range(1, max_count + 1), repeat=len(flatk)):
+        here = z3.And(*[k == BV(v, 32) for k, v in zip(flatk, counts)])
+        st = State(pc=[a for a in assume if not any(k.eq(x) for k in flatk for x in [a])])
+        cfgv = config_value(ctx)
+        cfg = st.ref(cfgv)
+        flags = (cfgv.get('is_capturing_group_enabled'), cfgv.get('is_output_colorized'), cfgv.get('is_verbose_mode_enabled'))
+        clusters, expected = [], []
+        it = iter(counts)
+        for i, n in enumerate(shape):
+            gs, word = [], []
+            for j in range(n):
+                kk = next(it)
+                gs.append(grapheme_value(ctx, st, [[cvars[i][j]]], kk, kk, flags))
+                word += [cvars[i][j]] * kk
+            clusters.append(cluster_value(ctx, st, gs, cfg))
+            expected.append(word)
+        outs = ex.run_fn(st, fn, [st.ref(ListV(clusters)), z3.BoolVal(False), cfg])
+        for o in outs:
+            npaths += 1
+            if o.panic:
+                bads.append(z3.And(here, *o.st.pc))
+                ob.classes_seen['panic'] = ob.classes_seen.get('panic', 0) + 1
+                continue
+            words, n_nodes, n_edges = trie_language(o.st, o.val)
+            cls = 'nodes=%d' % n_nodes
+            ob.classes_seen[cls] = ob.classes_seen.get(cls, 0) + 1
+            # every inserted word is in the trie, and every trie word is one of the inserted words
+            inc = [z3.Or(*[words_eq(w, t) for t in words]) if words else z3.BoolVal(False) for w in expected]
+            exc = [z3.Or(*[words_eq(w, t) for w in expected]) for t in words]
+            pre = []
+            if letters:
+                # the pipeline inserts the test cases in the order RegExp::sort establishes (length, then lexicographic; Q10p)
+                for a_, b_ in zip(expected, expected[1:]):
+                    pre.append(sorted_before(a_, b_))
+            bads.append(z3.And(here, *o.st.pc, *pre, z3.Not(z3.And(*(inc + exc)))))
+    ctx.finish(ob, ex, t0)
+    ob.paths = npaths
+    cvars = [c for cs_ in cvars for c in cs_]
+    kvars = flatk
+    ob.classes_expected = []
+    allv = cvars + kvars
+
+    def blocker(m):
+        """block every input that shares the graphemes involved in this model's first edge-widening event (all clusters up to
+        and including the widening one, cut at the widened position) -- one model per kind of event; without an event,
+        block the whole equality pattern + counts"""
+        vals = [m.eval(c, model_completion=True).as_long() for c in cvars]
+        kv = [m.eval(k, model_completion=True).as_long() for k in kvars]
+        idx, clusters_, pos = 0, [], []
+        for n_ in shape:
+            clusters_.append([(vals[idx + j], kv[idx + j]) for j in range(n_)])
+            pos.append([idx + j for j in range(n_)])
+            idx += n_
+        lab, where = first_widening(clusters_, with_position=True)
+        if lab is None:
+            involved = list(range(len(cvars)))
+        else:
+            ci_, depth_ = where
+            involved = [p_ for c_i in range(ci_ + 1) for p_ in pos[c_i][:depth_ + 1]]
+        parts = [kvars[i] == BV(kv[i], 32) for i in involved]
+        for a_ in range(len(involved)):
+            for b_ in range(a_ + 1, len(involved)):
+                i, j = involved[a_], involved[b_]
+                parts.append((cvars[i] == cvars[j]) if vals[i] == vals[j] else (cvars[i] != cvars[j]))
+        return z3.Not(z3.And(*parts))
+    ob.verdict = decide(ob.qid, assume + ob.defs, z3.Or(*bads), allv, all_sat=True, max_models=ctx.cap('Q16t'),
+                        second=ctx.second, workdir=ctx.workdir, second_timeout_s=getattr(ctx, 'second_timeout', 60), blocker=blocker)
+    return ob
+
+
+# =========================================================================== Q06d  Display for RegExp on a literal AST
+def verbose_literal_alternatives(ctx, c, esc, surr):
+    """texts that denote exactly the literal c under the (?x) flag"""
+    O = ctx.oracle
+    ascii_or_plain = z3.Or(z3.Not(esc), z3.ULT(c, BV(0x80, 32)))
+    alts = [(z3.And(ascii_or_plain, in_ranges(c, O['lit_bare_ok_verbose'])), [c]),
+            (z3.And(ascii_or_plain, in_ranges(c, O['lit_backslash_ok_verbose'])), [BV(92, 32), c])]
+    for text, cp, _ok_plain, ok_verbose in O['named_escapes']:
+        if ok_verbose:
+            alts.append((z3.And(ascii_or_plain, c == BV(cp, 32)), list(lit(text).items)))
+    for g, ref in escape_reference(c, surr):
+        alts.append((z3.And(esc, z3.UGE(c, BV(0x80, 32)), g), ref))
+    # \u{hex} is a valid way to write c whether or not escaping of non-ASCII characters was requested
+    for g, ref in escape_reference(c, z3.BoolVal(False)):
+        if len(ref) > 1:
+            alts.append((z3.And(g, in_ranges(c, O['lit_uescape_ok_verbose'])), ref))
+    return alts
+
+
+def plain_literal_alternatives(ctx, c, esc, surr):
+    alts = literal_text_alternatives(ctx, c, esc, surr)
+    O = ctx.oracle
+    for text, cp, ok_plain, _v in O['named_escapes']:
+        if ok_plain and text in ('\\v', '\\f'):
+            pass    # already included by literal_text_alternatives through named_escapes
+    return alts
+
+
+def strip_verbose_whitespace(items):
+    """what the regex parser ignores under (?x): unescaped concrete spaces and line breaks (symbolic items are kept: whether a
+    symbolic code point may stand bare is exactly what the obligation decides)"""
+    out, i = [], 0
+    while i < len(items):
+        v = concrete(items[i])
+        if v == 92 and i + 1 < len(items):
+            out += [items[i], items[i + 1]]
+            i += 2
+            continue
+        if v in (32, 10):
+            i += 1
+            continue
+        out.append(items[i])
+        i += 1
+    return out
+
+
+@guarded
+def q06d(ctx, n=1, alnum=False):
+    """Q06d: Display for RegExp with a literal AST: flags prefix, anchors exactly as requested, and every code point written so that the regex crate reads that literal -- also under (?x)"""
+    ob = Obligation('Q06d[n=%d]%s' % (n, '[alnum]' if alnum else ''), q06d.__doc__)
+    ob.domain = ('AST = Expression::Literal of %d one-code-point grapheme(s), %s each; all settings symbolic except syntax '
+                 'highlighting (off: C15) -- case-insensitive, verbose, both anchors, escaping, surrogates, capturing' % (
+                     n, 'a..z / 0..9' if alnum else 'every scalar value'))
+    ob.bound = 'literal ASTs of exactly %d graphemes (a single test case without repetition)' % n
+    if ctx.mir.structs.get('RegExp') != ['ast', 'config']:
+        raise Inconclusive('RegExp layout changed: %s' % (ctx.mir.structs.get('RegExp'),))
+    cs = [z3.BitVec('c%d' % i, 32) for i in range(n)]
+    assume = [valid_char(c) for c in cs]
+    if alnum:
+        # anchors / flags clause on its own: code points that need no escaping in any mode
+        assume += [z3.Or(z3.And(z3.UGE(c, BV(0x61, 32)), z3.ULE(c, BV(0x7A, 32))), z3.And(z3.UGE(c, BV(0x30, 32)), z3.ULE(c, BV(0x39, 32)))) for c in cs]
+        ob.domain = ob.domain if ob.domain else ''
+    ex = ctx.new_exec()
+    st = State(pc=list(assume))
+    cfgv = config_value(ctx, {'is_output_colorized': z3.BoolVal(False)})
+    cfg = st.ref(cfgv)
+    g = cfgv.get
+    esc, surr = g('is_non_ascii_char_escaped'), g('is_astral_code_point_converted_to_surrogate')
+    ci, vb = g('is_case_insensitive_matching'), g('is_verbose_mode_enabled')
+    nsa, nea = g('is_start_anchor_disabled'), g('is_end_anchor_disabled')
+    flags = (g('is_capturing_group_enabled'), z3.BoolVal(False), vb)
+    gs = [grapheme_value(ctx, st, [[c]], 1, 1, flags) for c in cs]
+    cluster = cluster_value(ctx, st, gs, cfg)
+    variants = ctx.mir.enums.get('Expression')
+    ast = EnumV('Expression', 'Literal', variants.index('Literal'), (cluster, esc, surr))
+    regexp = TupV((ast, cfg), ('ast', 'config'), 'RegExp')
+    fn = display_fmt_name(ctx, 'RegExp')
+    buf = st.ref(SymStr(()))
+    t0 = time.time()
+    outs = ex.run_fn(st, fn, [st.ref(regexp), buf])
+    ctx.finish(ob, ex, t0)
+    ob.paths = len(outs)
+    bads = []
+    for o in outs:
+        if o.panic:
+            bads.append(z3.And(*o.st.pc))
+            ob.classes_seen['panic'] = ob.classes_seen.get('panic', 0) + 1
+            continue
+        items = list(o.st.load(buf).items)
+        # the setting flags are decided on each path (the printer branches on them); read them off the path condition
+        def decided(b):
+            if ex.must(o.st, b):
+                return True
+            if ex.must(o.st, z3.Not(b)):
+                return False
+            return None
+        v_, ci_, nsa_, nea_ = decided(vb), decided(ci), decided(nsa), decided(nea)
+        if None in (v_, ci_, nsa_, nea_):
+            raise Inconclusive('a presentation flag is undecided on a path of Display for RegExp')
+        cls = '%s%s%s%s' % ('x' if v_ else '-', 'i' if ci_ else '-', '-' if nsa_ else '^', '-' if nea_ else '$')
+        ob.classes_seen[cls] = ob.classes_seen.get(cls, 0) + 1
+        if v_:
+            # under (?x) unescaped spaces / line breaks are insignificant: the flag must come first, then compare modulo them
+            head = '(?ix)' if ci_ else '(?x)'
+            if cps(items[:len(head)]) != [ord(ch) for ch in head]:
+                bads.append(z3.And(*o.st.pc))
+                continue
+            rest = strip_verbose_whitespace(items[len(head):])
+            alts_fn = verbose_literal_alternatives
+        else:
+            head = '(?i)' if ci_ else ''
+            if cps(items[:len(head)]) != [ord(ch) for ch in head]:
+                bads.append(z3.And(*o.st.pc))
+                continue
+            rest = items[len(head):]
+            alts_fn = plain_literal_alternatives
+        slots = []
+        if not nsa_:
+            slots.append([(z3.BoolVal(True), [BV(ord('^'), 32)])])
+        for c in cs:
+            slots.append(alts_fn(ctx, c, esc, surr))
+        if not nea_:
+            slots.append([(z3.BoolVal(True), [BV(ord('$'), 32)])])
+
+        def splits(pos, i):
+            if i == len(slots):
+                return z3.BoolVal(pos == len(rest))
+            ds = []
+            for gd, ref in slots[i]:
+                L = len(ref)
+                if pos + L <= len(rest):
+                    ds.append(z3.And(gd, *[a == b for a, b in zip(rest[pos:pos + L], ref)], splits(pos + L, i + 1)))
+            return z3.Or(*ds) if ds else z3.BoolVal(False)
+        bads.append(z3.And(*o.st.pc, z3.Not(splits(0, 0))))
+    ob.classes_expected = ['--^$', 'x-^$', '-i^$', '----']
+    ctx.check_classes(ob)
+    vars_ = cs + [esc, surr, ci, vb, nsa, nea]
+    ob.verdict = decide(ob.qid, assume + ob.defs, z3.Or(*bads), vars_, all_sat=True, max_models=ctx.cap('Q06d'),
+                        second=ctx.second, workdir=ctx.workdir, second_timeout_s=getattr(ctx, 'second_timeout', 60), block_vars=cs + [vb])
+    return ob
+
+
+@guarded
+def qlem(ctx):
+    """QLEM: the facts about std's one-code-point case mapping that the abstracted obligations assume, decided on the real dump"""
+    ob = Obligation('QLEM', qlem.__doc__)
+    ob.domain = 'every scalar value (tables only: std to_lowercase / to_uppercase dump of the build toolchain; no grex code)'
+    ob.bound = 'none'
+    x = z3.BitVec('x', 32)
+    lem = z3.And(*lowercase_lemmas(x))
+    real = concretize_lowercase(ctx, z3.And(valid_char(x), z3.Not(lem)))
+    ob.paths = 1
+    ob.classes_seen['table-lemma'] = 1
+    ob.functions = ['(oracle tables only)']
+    ob.verdict = decide('QLEM', [], real, [x], logic='QF_BV', timeout_s=300, second=ctx.second, workdir=ctx.workdir,
+                        second_timeout_s=getattr(ctx, 'second_timeout', 60))
     return ob
